@@ -730,4 +730,249 @@ theorem ioBatch_error_is_last (c : RetryConfig) : ∀ (items : List ι) (s : Lis
           congr 1
           omega
 
+/-! ### exact form of `ioBatch` -/
+
+/-- how an `Ok` of one item is put in front of the results of the remaining items
+    (`collect::<Result<Vec<_>, _>>()`) -/
+def consOk (v : β) (o : Res (List β)) : Res (List β) :=
+  match o with
+  | .ok vs => .ok (v :: vs)
+  | .error e => .error e
+
+/-- The defining recursion, stated on the three observable components: the first item is tried exactly
+    `(retry c s).attempts` times; only if that retry SUCCEEDS does the batch go on, with what is left of
+    the script; otherwise it stops there with that retry's outcome. -/
+theorem ioBatch_cons (c : RetryConfig) (it : ι) (its : List ι) (s : List (Res β)) :
+    (ioBatch c (it :: its) s).calls =
+      List.replicate (retry c s).attempts it ++
+        (match (retry c s).outcome with
+         | some (.ok _) => (ioBatch c its (s.drop (retry c s).attempts)).calls
+         | _ => []) ∧
+    (ioBatch c (it :: its) s).sleeps =
+      (retry c s).sleeps ++
+        (match (retry c s).outcome with
+         | some (.ok _) => (ioBatch c its (s.drop (retry c s).attempts)).sleeps
+         | _ => []) ∧
+    (ioBatch c (it :: its) s).outcome =
+      (match (retry c s).outcome with
+       | none => none
+       | some (.error e) => some (.error e)
+       | some (.ok v) => (ioBatch c its (s.drop (retry c s).attempts)).outcome.map (consOk v)) := by
+  simp only [ioBatch]
+  cases hr : (retry c s).outcome with
+  | none => simp
+  | some o =>
+    cases o with
+    | error e => simp
+    | ok v =>
+      refine ⟨rfl, rfl, ?_⟩
+      simp only
+      first
+        | rfl
+        | (congr 1; funext o; cases o <;> rfl)
+
+theorem take_succ_sum (a : Nat) (ks : List Nat) (j : Nat) :
+    ((a :: ks).take (j + 1)).sum = a + (ks.take j).sum := by
+  simp [List.take_succ_cons]
+
+/-- Closed form of `ioBatch` (no recursion in the statement): `ks[j]` = number of calls made for item `j`,
+    `(ks.take j).sum` = position in the script at which item `j` starts. -/
+theorem ioBatch_exact (c : RetryConfig) : ∀ (items : List ι) (s : List (Res β)),
+    ∃ ks : List Nat, ks.length ≤ items.length ∧
+      (ioBatch c items s).calls = (items.zip ks).flatMap (fun p => List.replicate p.2 p.1) ∧
+      (∀ j k, ks[j]? = some k → k = (retry c (s.drop (ks.take j).sum)).attempts) ∧
+      (∀ j, j + 1 < ks.length → ∃ v, (retry c (s.drop (ks.take j).sum)).outcome = some (.ok v)) ∧
+      (ks.length < items.length → 1 ≤ ks.length ∧
+        ∀ v, (retry c (s.drop (ks.take (ks.length - 1)).sum)).outcome ≠ some (.ok v)) ∧
+      (∀ e, (ioBatch c items s).outcome = some (.error e) ↔
+        (1 ≤ ks.length ∧ (retry c (s.drop (ks.take (ks.length - 1)).sum)).outcome = some (.error e))) ∧
+      ((ioBatch c items s).outcome = none ↔
+        (1 ≤ ks.length ∧ (retry c (s.drop (ks.take (ks.length - 1)).sum)).outcome = none)) ∧
+      (∀ vs, (ioBatch c items s).outcome = some (.ok vs) →
+        ks.length = items.length ∧ vs.length = items.length ∧
+        ∀ j v, vs[j]? = some v → (retry c (s.drop (ks.take j).sum)).outcome = some (.ok v)) := by
+  intro items
+  induction items with
+  | nil =>
+    intro s
+    refine ⟨[], by simp, by simp [ioBatch], by simp, by simp, by simp, ?_, ?_, ?_⟩
+    · intro e; simp [ioBatch]
+    · simp [ioBatch]
+    · intro vs h
+      simp only [ioBatch, Option.some.injEq, Except.ok.injEq] at h
+      subst h; simp
+  | cons it its ih =>
+    intro s
+    obtain ⟨hcalls, _, hout⟩ := ioBatch_cons c it its s
+    cases hr : (retry c s).outcome with
+    | none =>
+      rw [hr] at hcalls hout
+      refine ⟨[(retry c s).attempts], by simp, by simpa using hcalls, ?_, by simp, ?_, ?_, ?_, ?_⟩
+      · intro j k hk
+        cases j with
+        | zero => simp at hk; simp [hk]
+        | succ j => simp at hk
+      · intro _; simp [hr]
+      · intro e; simp [hout, hr]
+      · simp [hout, hr]
+      · intro vs h; simp [hout] at h
+    | some o =>
+      cases o with
+      | error e' =>
+        rw [hr] at hcalls hout
+        refine ⟨[(retry c s).attempts], by simp, by simpa using hcalls, ?_, by simp, ?_, ?_, ?_, ?_⟩
+        · intro j k hk
+          cases j with
+          | zero => simp at hk; simp [hk]
+          | succ j => simp at hk
+        · intro _; simp [hr]
+        · intro e; simp [hout, hr]
+        · simp [hout, hr]
+        · intro vs h; simp [hout] at h
+      | ok v =>
+        rw [hr] at hcalls hout
+        simp only at hcalls hout
+        obtain ⟨ks, hlen, hc, ha, hb1, hb2, hc1, hc2, hc3⟩ := ih (s.drop (retry c s).attempts)
+        -- the script position of item j+1 in `s` is that of item j in the rest, shifted by the first item's calls
+        have hdrop : ∀ j, s.drop (((retry c s).attempts :: ks).take (j + 1)).sum
+            = (s.drop (retry c s).attempts).drop (ks.take j).sum := by
+          intro j; rw [take_succ_sum, List.drop_drop]
+        have hlast : 1 ≤ ks.length →
+            s.drop ((((retry c s).attempts :: ks).take (((retry c s).attempts :: ks).length - 1)).sum)
+              = (s.drop (retry c s).attempts).drop (ks.take (ks.length - 1)).sum := by
+          intro h1
+          have : ((retry c s).attempts :: ks).length - 1 = (ks.length - 1) + 1 := by
+            simp only [List.length_cons]; omega
+          rw [this]; exact hdrop _
+        refine ⟨(retry c s).attempts :: ks, by simp; omega, ?_, ?_, ?_, ?_, ?_, ?_, ?_⟩
+        · rw [hcalls, hc]; simp
+        · intro j k hk
+          cases j with
+          | zero => simp at hk; simp [hk]
+          | succ j =>
+            simp only [List.getElem?_cons_succ] at hk
+            rw [hdrop]; exact ha j k hk
+        · intro j hj
+          cases j with
+          | zero => exact ⟨v, by simpa using hr⟩
+          | succ j =>
+            rw [hdrop]
+            exact hb1 j (by simp only [List.length_cons] at hj; omega)
+        · intro hlt
+          have hlt' : ks.length < its.length := by simp only [List.length_cons] at hlt; omega
+          obtain ⟨h1, hne⟩ := hb2 hlt'
+          refine ⟨by simp, ?_⟩
+          rw [hlast h1]; exact hne
+        · intro e
+          rw [hout]
+          constructor
+          · intro h
+            simp only [Option.map_eq_some_iff] at h
+            obtain ⟨o', ho', h⟩ := h
+            cases o' with
+            | ok vs => simp [consOk] at h
+            | error e'' =>
+              simp only [consOk, Except.error.injEq] at h
+              subst h
+              obtain ⟨h1, hl⟩ := (hc1 e'').mp ho'
+              exact ⟨by simp, by rw [hlast h1]; exact hl⟩
+          · intro ⟨_, hl⟩
+            by_cases h1 : 1 ≤ ks.length
+            · rw [hlast h1] at hl
+              have := (hc1 e).mpr ⟨h1, hl⟩
+              simp [this, consOk]
+            · have hk0 : ks = [] := List.eq_nil_of_length_eq_zero (by omega)
+              subst hk0
+              simp [hr] at hl
+        · rw [hout]
+          constructor
+          · intro h
+            simp only [Option.map_eq_none_iff] at h
+            obtain ⟨h1, hl⟩ := hc2.mp h
+            exact ⟨by simp, by rw [hlast h1]; exact hl⟩
+          · intro ⟨_, hl⟩
+            by_cases h1 : 1 ≤ ks.length
+            · rw [hlast h1] at hl
+              have := hc2.mpr ⟨h1, hl⟩
+              simp [this]
+            · have hk0 : ks = [] := List.eq_nil_of_length_eq_zero (by omega)
+              subst hk0
+              simp [hr] at hl
+        · intro vs h
+          rw [hout] at h
+          simp only [Option.map_eq_some_iff] at h
+          obtain ⟨o', ho', h⟩ := h
+          cases o' with
+          | error e'' => simp [consOk] at h
+          | ok vs' =>
+            simp only [consOk, Except.ok.injEq] at h
+            subst h
+            obtain ⟨h1, h2, h3⟩ := hc3 vs' ho'
+            refine ⟨by simp [h1], by simp [h2], ?_⟩
+            intro j w hw
+            cases j with
+            | zero =>
+              simp only [List.getElem?_cons_zero, Option.some.injEq] at hw
+              subst hw; simpa using hr
+            | succ j =>
+              simp only [List.getElem?_cons_succ] at hw
+              rw [hdrop]; exact h3 j w hw
+
+/-- The conditions of `ioBatch_exact` that speak about `ks` alone (`n` = number of items). -/
+def IoTrace (c : RetryConfig) (n : Nat) (s : List (Res β)) (ks : List Nat) : Prop :=
+  ks.length ≤ n ∧
+  (∀ j k, ks[j]? = some k → k = (retry c (s.drop (ks.take j).sum)).attempts) ∧
+  (∀ j, j + 1 < ks.length → ∃ v, (retry c (s.drop (ks.take j).sum)).outcome = some (.ok v)) ∧
+  (ks.length < n → 1 ≤ ks.length ∧
+    ∀ v, (retry c (s.drop (ks.take (ks.length - 1)).sum)).outcome ≠ some (.ok v))
+
+theorem IoTrace.take_eq {c : RetryConfig} {n : Nat} {s : List (Res β)} {ks ks' : List Nat}
+    (h : IoTrace c n s ks) (h' : IoTrace c n s ks') :
+    ∀ j, j ≤ ks.length → j ≤ ks'.length → ks.take j = ks'.take j := by
+  intro j
+  induction j with
+  | zero => intros; simp
+  | succ j ih =>
+    intro hj hj'
+    have e := ih (by omega) (by omega)
+    have hj1 : j < ks.length := by omega
+    have hj1' : j < ks'.length := by omega
+    have a := h.2.1 j ks[j] (by simp)
+    have a' := h'.2.1 j ks'[j] (by simp)
+    rw [e] at a
+    rw [List.take_succ_eq_append_getElem hj1, List.take_succ_eq_append_getElem hj1', e, a, a']
+
+theorem IoTrace.length_le {c : RetryConfig} {n : Nat} {s : List (Res β)} {ks ks' : List Nat}
+    (h : IoTrace c n s ks) (h' : IoTrace c n s ks') : ks'.length ≤ ks.length := by
+  apply Nat.le_of_not_lt
+  intro hlt
+  have hn : ks.length < n := by have := h'.1; omega
+  obtain ⟨h1, hne⟩ := h.2.2.2 hn
+  obtain ⟨v, hv⟩ := h'.2.2.1 (ks.length - 1) (by omega)
+  have e := IoTrace.take_eq h h' (ks.length - 1) (by omega) (by omega)
+  rw [← e] at hv
+  exact hne v hv
+
+/-- … and they determine `ks` (so `ioBatch_exact` fixes the whole call trace, not just some bound on it). -/
+theorem IoTrace.unique {c : RetryConfig} {n : Nat} {s : List (Res β)} {ks ks' : List Nat}
+    (h : IoTrace c n s ks) (h' : IoTrace c n s ks') : ks = ks' := by
+  have l1 := IoTrace.length_le h h'
+  have l2 := IoTrace.length_le h' h
+  have e := IoTrace.take_eq h h' ks.length (by omega) (by omega)
+  rw [List.take_length] at e
+  rw [e, show ks.length = ks'.length by omega, List.take_length]
+
+/-! ### a counter-model: the per-item batch that never retries
+
+It calls the operation once per item and stops at the first `Err`. It satisfies everything the former,
+existential statement about `run_cloud_io_batch` said (calls = items × kᵢ with kᵢ ≤ budget, an error is the
+outcome of the last call); `Props/C18.lean` shows that it violates the exact statements. -/
+def neverRetryBatch : List ι → List (Res β) → IoBatchResult ι β
+  | [], _ => ⟨[], [], some (.ok [])⟩
+  | _ :: _, [] => ⟨[], [], none⟩
+  | it :: _, .error e :: _ => ⟨[it], [], some (.error e)⟩
+  | it :: its, .ok v :: rest =>
+    let r := neverRetryBatch its rest
+    ⟨it :: r.calls, r.sleeps, r.outcome.map (consOk v)⟩
+
 end IB.Cloud
